@@ -138,10 +138,7 @@ func main() {
 	fmt.Printf("(b) DMA path, range lattice under the default schedule: %d copies (H2D+D2H each), complete=%v\n", bLat, bDone)
 
 	// ---- (d)
-	dRuns := 0
-	if r.Thorough() {
-		dRuns = platformPart(r)
-	}
+	dRuns := platformPart(r)
 
 	// ---- (b) interleavings
 	r.RunScenarios(dmaworld.Scenarios(r.Thorough()))
